@@ -114,6 +114,31 @@ func c05Gen(r *rand.Rand, id int) ([][]database.Command, []c05Step) {
 			steps = append(steps, c05Step{Op: []string{"search", "monsearch"}[r.Intn(2)], Query: ints(w), Opts: &o})
 		}
 	}
+	if id%4 == 2 {
+		// the same words in two orders, more of them than the term cap lets through, plain index search: the two requests
+		// keep different words (the first four are protected), so they are different requests and must not share an entry
+		var ws []string
+		seen := map[string]bool{}
+		for _, c := range dbs[0] {
+			for _, w := range strings.Fields(strings.ToLower(c.Description + " " + c.Command)) {
+				if len(w) >= 3 && !seen[w] && strings.Trim(w, "abcdefghijklmnopqrstuvwxyz") == "" && len(ws) < 6 {
+					seen[w] = true
+					ws = append(ws, w)
+				}
+			}
+		}
+		if len(ws) >= 5 {
+			rev := make([]string, len(ws))
+			for i, w := range ws {
+				rev[len(ws)-1-i] = w
+			}
+			o := eOpts{AllPlatforms: true, Limit: len(dbs[0]) + 1, TermsCap: []int{3, 2, 4}[id/4%3]}
+			for _, q := range []string{strings.Join(ws, " "), strings.Join(rev, " "), strings.Join(ws, " "), strings.ToUpper(strings.Join(rev, " "))} {
+				oo := o
+				steps = append(steps, c05Step{Op: []string{"search", "monsearch"}[len(steps)%2], Query: ints(q), Opts: &oo})
+			}
+		}
+	}
 	n := 3 + r.Intn(23)
 	for i := 0; i < n; i++ {
 		x := r.Intn(100)
